@@ -285,6 +285,22 @@ class Runner:
             out.append(dict(names=self.user_names_all(k), tables=tabs))
         return out
 
+    def close(self):
+        """Drop every node before the managers go away (dd complains about
+        referenced nodes at shutdown otherwise)."""
+        self.handles = [[], []]
+        for c in self.ctx:
+            for attr in ('init', 'action'):
+                d = getattr(c, attr, None)
+                if d is not None:
+                    dict.clear(d)
+            if hasattr(c, 'win'):
+                c.win = dict()
+            c.op_bdd = dict()
+            if hasattr(c, '_bdd_to_expr'):
+                c._bdd_to_expr = dict()
+        gc.collect()
+
     def user_names_all(self, k):
         return sorted(n for n in self.ctx[k].vars if not n.endswith("'"))
 
@@ -565,6 +581,16 @@ class CacheRun:
             return u
         aut._add_expr = logged_add
 
+    def close(self):
+        self.held = []
+        self.addlog = []
+        aut = self.aut
+        dict.clear(aut.init)
+        dict.clear(aut.action)
+        aut._bdd_to_expr = dict()
+        del aut._add_expr
+        gc.collect()
+
     def uid(self, u):
         return int(str(u)[1:])
 
@@ -834,6 +860,8 @@ def correspond(ctx):
         g, what = sequence_group(i, ops, runs)
         groups.append(g)
         meta += [('sequence', len(seqs), w) for w in what]
+        for _cfg, _r, _fin in runs:
+            _r.close()
         seqs.append(ops)
         for o in ops:
             op_hist[o[0]] = op_hist.get(o[0], 0) + 1
@@ -866,6 +894,7 @@ def correspond(ctx):
             groups.append(cache_group(i, j, cr))
             meta.append(('cache', len(cache_cases), cfg))
             cache_cases.append(dict(ops=ops, exprs=exprs, config=list(cfg)))
+            cr.close()
             del cr
         gc.collect()
     res = ctx.eval_groups('corr', HEADER, groups, shard=150)
